@@ -642,9 +642,9 @@ func init() {
 		Pkgs: []string{"./shovel/config"},
 		Runs: func(tier string) []HRun {
 			var rs []HRun
-			for a := 0; a <= 3; a++ {
+			for a := 0; a <= 4; a++ {
 				rs = append(rs, HRun{Pkg: "./shovel/config", Fn: "ZZ_C16_Schema", Params: []int{a, -1, 0}})
-				for b := 0; b <= 3; b++ {
+				for b := 0; b <= 4; b++ {
 					for sh := 0; sh <= 1; sh++ {
 						rs = append(rs, HRun{Pkg: "./shovel/config", Fn: "ZZ_C16_Schema", Params: []int{a, b, sh}, MaxPaths: 100000})
 					}
@@ -656,11 +656,11 @@ func init() {
 			return rs
 		},
 		Assumptions: []string{
-			"integration shapes: transaction fields, log with an indexed selected input, log with a non-indexed selected array input, trace fields (4 shapes, all ordered pairs, shared table or not); user-declared identity column, column order, declaration order and how many columns of each table already exist in the database are case-split (enumerated, not solver-quantified)",
+			"integration shapes: transaction fields, log with an indexed selected input, log with a non-indexed selected array input, trace fields, log whose only selected value is a component of a tuple array (5 shapes, all ordered pairs, shared table or not); user-declared identity column, column order, declaration order and how many columns of each table already exist in the database are case-split (enumerated, not solver-quantified)",
 			"the database's answer to information_schema.columns is cut at pgx.CollectRows inside wpg.Diff; DDL/alter statements are read back from their text; 'create unique index if not exists u_<table>' semantics: the first statement executed for a table wins",
 			"key projection: the key must contain the identity columns that tell the integration's rows apart (ig_name, src_name, block_num, tx_idx + log_idx / abi_idx / trace_action_idx by shape) and only columns the integration writes (a NULL key column never collides); the node reports distinct (block, tx_idx, log_idx) per log",
 		},
-		Bounds:  map[string]string{"quick": "4 shapes alone + 16 ordered pairs x {separate, shared table} + 12 rejection cases", "thorough": "same"},
+		Bounds:  map[string]string{"quick": "5 shapes alone + 25 ordered pairs x {separate, shared table} + 15 rejection cases", "thorough": "same"},
 		Outside: []string{"user-supplied unique lists", "Postgres' own DDL semantics"},
 	})
 }
@@ -671,7 +671,7 @@ func init() {
 		Pkgs: []string{"./shovel"},
 		Runs: func(tier string) []HRun {
 			var rs []HRun
-			for pos := 0; pos < 20; pos++ {
+			for pos := 0; pos < 22; pos++ {
 				for path := 0; path <= 1; path++ {
 					rs = append(rs, HRun{Pkg: "./shovel", Fn: "ZZ_C15_Inject", Params: []int{pos, path}})
 				}
@@ -680,12 +680,12 @@ func init() {
 			return rs
 		},
 		Assumptions: []string{
-			"non-interference formulation: one symbolic byte is appended to one configuration string position (20 positions of a skeleton configuration that exercises every SQL text builder: DDL incl. unique/index statements, alter table, reorg delete, reference lookup incl. a nested tuple component, notification, application_name); whenever validation accepts and a recorded SQL text is a function of that byte, z3 must prove the byte is in [A-Za-z0-9_-]",
+			"non-interference formulation: one symbolic byte is appended to one configuration string position (22 positions of a skeleton configuration that exercises every SQL text builder: DDL incl. unique/index statements, alter table, reorg delete, reference lookup incl. a nested tuple component, notification, application_name); whenever validation accepts and a recorded SQL text is a function of that byte, z3 must prove the byte is in [A-Za-z0-9_-]",
 			"two validation paths: file (config.ValidateFix) and dashboard (config.CheckUserInput on the submitted integration only, then task construction without ValidateFix, as web.SaveIntegration + loadTasks do); HTTP/JSON plumbing of the dashboard is not executed",
 			"symbolic configuration bytes are ASCII (< 0x80): wstrings.Safe's unicode classes are modelled exactly for ASCII only; non-ASCII letters/digits (which Safe accepts) are outside the claim",
 			"identifiers handed to pgx.CopyFrom are quoted by pgx and count as parameters; chain-derived bytes (address, topic, data) are symbolic in ZZ_C15_Chain and must not influence any SQL text",
 		},
-		Bounds:  map[string]string{"quick": "20 positions x 2 paths, one appended byte each; 1 chain-data run", "thorough": "same"},
+		Bounds:  map[string]string{"quick": "22 positions x 2 paths, one appended byte each; 1 chain-data run", "thorough": "same"},
 		Outside: []string{"non-ASCII runes", "positions not in the skeleton (e.g. compiled integrations)", "prepended or inner hostile bytes"},
 	})
 }
@@ -709,6 +709,13 @@ func init() {
 				}
 			}
 			rs = append(rs, HRun{Pkg: "./jrpc2", Fn: "ZZ_C18_Head", Params: []int{0}}, HRun{Pkg: "./jrpc2", Fn: "ZZ_C18_Head", Params: []int{1}})
+			// every scenario also with the goroutines recorded in reverse spawn order
+			n := len(rs)
+			for i := 0; i < n; i++ {
+				r := rs[i]
+				r.GoOrder, r.Label = 1, "reverse-spawn-order"
+				rs = append(rs, r)
+			}
 			return rs
 		},
 		Assumptions: []string{
